@@ -346,7 +346,26 @@ pub fn run(cfg: &Cfg, rep: &mut Report) {
                 return;
             }
             RefOutcome::Accept if reference.trailing_bytes => {
-                r.count("mutated_not_judged_trailing_bytes", 1);
+                // whether 1..3 stray bytes behind the last instruction are a parse error is not specified; that
+                // finalize and the result agree is: Ok <=> the log ends with the one finalize, a parse error
+                // => no finalize at all
+                let mut c = Scripted { at: usize::MAX, act: Act::Stop, token: idx, payload: 0, sent: None, log: vec![], insts: vec![], header: None, calls: 0, nest: None, nested_log: None };
+                match catch(|| rspirv::binary::parse_bytes(&bytes, &mut c)) {
+                    Err(p) => r.violation(format!("C14:panic:{}", crate::util::panic_key(&p)), format!("parser panicked: {}", p.msg), crate::util::replay_ref(cfg, "mutated", idx)),
+                    Ok(res) => {
+                        let finalized = c.log.iter().filter(|s| *s == "finalize").count();
+                        let ends_finalized = c.log.last().map(|s| s == "finalize").unwrap_or(false);
+                        let consistent = match &res {
+                            Ok(()) => finalized == 1 && ends_finalized,
+                            Err(_) => finalized == 0,
+                        };
+                        if !consistent {
+                            r.violation("C14:finalize-vs-result".to_string(), format!("parse_bytes on a binary with stray trailing bytes ({}) returned {:?} after the callbacks {:?}", label, res.as_ref().err(), c.log), crate::util::replay_ref(cfg, "mutated", idx).set("binary", hex_bytes(&bytes)));
+                        }
+                        r.nontrivial(format!("trailing-bytes:{}", if res.is_ok() { "ok" } else { "err" }));
+                    }
+                }
+                r.count("mutated_trailing_bytes_consistency_only", 1);
                 return;
             }
             RefOutcome::Accept => (reference.insts.len(), false, true),
